@@ -1165,6 +1165,58 @@ func constructorsInLocalZone(c *engine.Ctx) {
 			}
 		}
 	}
+	// values built by the constructors are independent of each other: setting an AP option on one AP-REQ (as the SPNEGO
+	// token constructor does in place) changes neither an AP-REQ built earlier nor one built later
+	{
+		evals++
+		p, _ := rcrypto.Get(18)
+		sk := types.EncryptionKey{KeyType: 18, KeyValue: bytes.Repeat([]byte{9}, p.KeyLen)}
+		mk := func() (messages.APReq, []byte, error) {
+			auth, err := types.NewAuthenticator("R.COM", cname)
+			if err != nil {
+				return messages.APReq{}, nil, err
+			}
+			ap, err := messages.NewAPReq(tgt, sk, auth)
+			if err != nil {
+				return ap, nil, err
+			}
+			b, err := ap.Marshal()
+			return ap, b, err
+		}
+		ap1, b1, e1 := mk()
+		ap2, _, e2 := mk()
+		if e1 != nil || e2 != nil {
+			c.Violate("constructed", "constructor:NewAPReq:error", map[string]interface{}{"err": fmt.Sprint(e1, e2)}, nil)
+		} else {
+			types.SetFlag(&ap2.APOptions, 2) // mutual-required on the second value only
+			b1again, _ := ap1.Marshal()
+			_, b3, _ := mk()
+			r3, derr := krbmsg.DecodeAPReq(b3)
+			switch {
+			case !bytes.Equal(b1, b1again):
+				c.Violate("constructed", "constructor:NewAPReq:values-share-state:earlier-value-changed", map[string]interface{}{"first_difference_at": firstDiff(b1, b1again)}, nil)
+			case derr != nil || r3.APOptions != 0:
+				c.Violate("constructed", "constructor:NewAPReq:values-share-state:later-value-carries-the-option", map[string]interface{}{"err": fmt.Sprint(derr), "ap_options": fmt.Sprintf("%08x", r3.APOptions)}, nil)
+			default:
+				c.Distinct("constructor/ap-req-independent")
+			}
+		}
+		// the same for kdc-options of two requests built one after the other
+		cfg := config.New()
+		cfg.LibDefaults.DefaultRealm, cfg.LibDefaults.NoAddresses = "R.COM", true
+		a1, ea := messages.NewASReqForTGT("R.COM", cfg, cname)
+		a2, eb := messages.NewASReqForTGT("R.COM", cfg, cname)
+		if ea == nil && eb == nil {
+			ba, _ := a1.Marshal()
+			types.SetFlag(&a2.ReqBody.KDCOptions, 1)
+			ba2, _ := a1.Marshal()
+			if !bytes.Equal(ba, ba2) {
+				c.Violate("constructed", "constructor:NewASReq:values-share-state:earlier-value-changed", map[string]interface{}{"first_difference_at": firstDiff(ba, ba2)}, nil)
+			} else {
+				c.Distinct("constructor/as-req-independent")
+			}
+		}
+	}
 	// pre-authentication timestamp and KRB-ERROR
 	evals++
 	if b, err := types.GetPAEncTSEncAsnMarshalled(); err != nil {
